@@ -1168,7 +1168,7 @@ def run_case(case):
         nodeobs = {'configured': list(eff), 'registered': list(node.modules), 'reported': [k for k in errs],
                    'starts': not node.errors}
         gens.append({'mods': mods, 'node': nodeobs})
-        if node.errors or not case.get('restart'):
+        if node.errors or not case.get('restart') or os.environ.get('VERIF_C10_NORESTART'):
             break                       # a node with configuration errors exits: there is no restart
     return {'gens': gens, 'merge': merge}
 
